@@ -17,11 +17,11 @@ Record cfg := { c_gov : Z;        (* address of the configured governance (core)
 
 Record header := { h_ts : Z; h_height : Z }.       (* BlockHeaderEntry: timestamp (ms), height *)
 
-Inductive pkind := PTransfer | PAttest | POther.   (* first payload byte: 1 / 2 / anything else or empty payload *)
 Record tokinfo := { ti_id : Z; ti_dec : Z; ti_sym : Z; ti_name : Z }.
 (* result of ToWormholeMessage *)
-Record wmsg := { m_sender : Z; m_cl : Z; m_kind : pkind;
-                 m_tok : option tokinfo (* parseAttestToken payload; None = error; consulted only for PAttest *) }.
+Record wmsg := { m_sender : Z; m_cl : Z;
+                 m_p0 : Z;      (* first byte of the payload, -1 for an empty payload *)
+                 m_tok : option tokinfo (* parseAttestToken payload; None = error; consulted only for attestations *) }.
 (* ContractEvent; e_uid identifies the event for the observer, e_conv = ToWormholeMessage(fields) *)
 Record cevent := { e_uid : Z; e_block : Z; e_index : Z; e_conv : option wmsg }.
 (* ContractEventByTxId carries the emitting contract's address *)
@@ -37,8 +37,9 @@ Definition wrap32 (x : Z) : Z := (x + 2147483648) mod 4294967296 - 2147483648.
 Definition wrap64 (x : Z) : Z := (x + 9223372036854775808) mod 18446744073709551616 - 9223372036854775808.
 
 (* ------------------------------------------------------------------ isEventConfirmed + getConfirmationDuration *)
-Definition is_transfer (m : wmsg) : bool := match m_kind m with PTransfer => true | _ => false end.
-Definition is_attest (m : wmsg) : bool := match m_kind m with PAttest => true | _ => false end.
+(* IsTransferTokenVAA / IsAttestTokenVAA: len(payload) > 0 && payload[0] == <payload id> *)
+Definition is_transfer (m : wmsg) : bool := m_p0 m =? alph_transfer_payload_id.
+Definition is_attest (m : wmsg) : bool := m_p0 m =? alph_attest_payload_id.
 
 Definition confirmed (mainnet : bool) (m : wmsg) (h : header) (now height : Z) : bool :=
   if alph_height_short (wrap32 (h_height h + m_cl m)) height then false
@@ -224,6 +225,8 @@ Fixpoint handle_confirmed (bridge : Z) (l : list (uevent * header)) : list fwd *
 
 (* ------------------------------------------------------------------ re-observation path *)
 Record reobs_in := {
+  r_chain : Z;                        (* req.ChainId *)
+  r_txlen : Z;                        (* len(req.TxHash) *)
   r_status : option (option Z);       (* /transactions/status: None = API error, Some None = not confirmed, Some (Some b) = confirmed in block b *)
   r_events : option (list tevent);    (* /events/tx-id *)
   r_hd : Z -> option header;          (* /blockflow/headers *)
@@ -268,6 +271,8 @@ Definition reobs_confirmed (mainnet : bool) (m : wmsg) (h : header) (now height 
 Inductive flag := FNone | FFatal | FSpin | FPanic.
 
 Definition reobserve (c : cfg) (r : reobs_in) : list fwd * flag :=
+  if negb (r_chain r =? alph_chain_id) then ([], FNone) else
+  if negb (r_txlen r =? alph_txid_len) then ([], FNone) else
   match r_status r with
   | Some (Some blk) =>
     match r_events r with
@@ -303,7 +308,8 @@ Inductive op :=
 | OPoll (cnt : option Z) (pg : nat -> Z -> page_ans) (tok : Z -> mc_ans)     (* one tick of fetchEvents *)
 | ODeliver                                                                    (* handleEvents_ receives the batch *)
 | OTick (height now : Z) (mc : Z -> option bool) (hd : Z -> option header)    (* handleEvents_ receives a height *)
-| OReobs (r : reobs_in).                                                      (* handleObsvRequest receives a request *)
+| OReobs (r : reobs_in)                                                       (* handleObsvRequest receives a request *)
+| OHeightErr.                                                                 (* fetchHeight's chain-info request fails: error on errC *)
 
 Record out := { o_fwd : list fwd;                (* messages sent on msgChan in this step *)
                 o_batch : list uevent;           (* batch produced by this poll *)
@@ -350,6 +356,7 @@ Definition step (c : cfg) (s : wstate) (o : op) : wstate * out :=
   | OReobs r =>
     let '(f, fl) := reobserve c r in
     (match fl with FNone => s | _ => die s end, {| o_fwd := f; o_batch := []; o_nreq := 0; o_flag := fl |})
+  | OHeightErr => (die s, {| o_fwd := []; o_batch := []; o_nreq := 0; o_flag := FFatal |})
   end.
 
 Fixpoint run (c : cfg) (s : wstate) (ops : list op) : list out * wstate :=
